@@ -1440,6 +1440,9 @@ func main() {
 		{pkgs["reader"], "Reader", "detectFormat"},
 		{pkgs["reader"], "", "GetFormatUnserializer"},
 		{pkgs["unserializers"], "", "readSPDXJSON"},
+		{pkgs["serializers"], "CDX", "Serialize"},
+		{pkgs["serializers"], "SPDX23", "Serialize"},
+		{pkgs["writer"], "Writer", "WriteStreamWithOptions"},
 	} {
 		fd := findFunc(sp.p, sp.recv, sp.name)
 		items := skeleton(sp.p, fd)
@@ -1492,6 +1495,19 @@ func main() {
 							if !seen[e] {
 								seen[e] = true
 								gs = append(gs, e)
+							}
+						}
+						return true
+					})
+					// nil-safe protobuf getters count as guards of their receiver
+					ast.Inspect(fd.Body, func(n ast.Node) bool {
+						if ce, ok := n.(*ast.CallExpr); ok {
+							if se, ok := ce.Fun.(*ast.SelectorExpr); ok && strings.HasPrefix(se.Sel.Name, "Get") && len(ce.Args) == 0 {
+								e := exprString(ce)
+								if !seen[e] {
+									seen[e] = true
+									gs = append(gs, e)
+								}
 							}
 						}
 						return true
